@@ -53,9 +53,12 @@ PLANS = {
     },
     "C07": {
         "quick": [("c07_h%d" % h, BOTH + ("cli",), session_check.READ_ACTIONS, None, None, None) for h in range(0, 4)]
-        + [("c07_again_h1", ("delimited",), session_check.READ_ACTIONS + ["ReadAgain"], 4000, None, None)],
+        + [("c07_again_h1", ("delimited",), session_check.READ_ACTIONS + ["ReadAgain"], 4000, None, None),
+           ("c07_empty_h1", ("delimited",), session_check.READ_ACTIONS, None, None, None),
+           ("c07_empty_h2", ("delimited",), session_check.READ_ACTIONS, None, None, None)],
         "thorough": [("c07_h%d_t5" % h, BOTH + ("cli",), session_check.READ_ACTIONS, None, None, None) for h in range(0, 4)]
-        + [("c07_again_h%d" % h, BOTH, session_check.READ_ACTIONS + ["ReadAgain"], 60000, None, None) for h in (0, 1)],
+        + [("c07_again_h%d" % h, BOTH, session_check.READ_ACTIONS + ["ReadAgain"], 60000, None, None) for h in (0, 1)]
+        + [("c07_empty_h%d" % h, ("delimited",), session_check.READ_ACTIONS, None, None, None) for h in (0, 1, 2)],
     },
     "C08": {
         "quick": [("c08_hist2", ("delimited",), RW, 4000, None, None),
